@@ -35,7 +35,7 @@ ENVS = [
 WHENS = ["2024-08-21T00:00:00Z", "2024-08-21T00:00:00", "2024-03-10T02:30:00", "2024-08-21 00:00:00", "2024-08-21", "2024-08-21T00:00:00+09:00",
          "2024-08-21T00:00:00.5-07:00", "Wed, 21 Aug 2024 00:00:00 GMT", "1724198400", "2024-11-03T01:30:00", "20240821T000000", "2024-08-21T00:00:00 PST"]
 
-STRUCTURED = {"fn-epoch-s-json", "fn-misc-s-yaml", "v-s-json", "v-s-yaml", "v-s-sarif", "v-s-junit", "v-printjson", "pt-json", "pt-yaml", "t-json", "t-yaml", "t-junit"}
+STRUCTURED = {"pt-json-ofile", "pt-yaml-ofile", "rulegen-ofile", "fn-epoch-s-json", "fn-misc-s-yaml", "v-s-json", "v-s-yaml", "v-s-sarif", "v-s-junit", "v-printjson", "pt-json", "pt-yaml", "t-json", "t-yaml", "t-junit"}
 TIME_RE = re.compile(rb'(time="[^"]*"|"time":\s*\d+|\btime:\s*\d+)')
 ANSI = re.compile(rb"\x1b\[[0-9;]*m")
 
@@ -98,6 +98,9 @@ def modes_for(sdir):
         "rulegen": ["rulegen", "-t", os.path.join(sdir, "d", "d0.json")],
         "v-tf-console": ["validate", "-r", os.path.join(sdir, "tf.guard"), "-d", os.path.join(sdir, "tf")],
         "v-tf-console-all": ["validate", "-r", os.path.join(sdir, "tf.guard"), "-d", os.path.join(sdir, "tf"), "-S", "all", "-v"],
+        "pt-json-ofile": ["parse-tree", "-r", os.path.join(sdir, "r1.guard"), "-p", "-o", "{OUT}"],
+        "pt-yaml-ofile": ["parse-tree", "-r", os.path.join(sdir, "r2.guard"), "-y", "-o", "{OUT}"],
+        "rulegen-ofile": ["rulegen", "-t", os.path.join(sdir, "d", "d0.json"), "-o", "{OUT}"],
         "fn-epoch-s-json": ["validate", "-r", os.path.join(sdir, "fn1.guard")] + D + ["--structured", "-S", "none", "-o", "json"],
         "fn-epoch-console": ["validate", "-r", os.path.join(sdir, "fn1.guard")] + D + ["-S", "all"],
         "fn-misc-s-yaml": ["validate", "-r", os.path.join(sdir, "fn2.guard")] + D + ["--structured", "-S", "none", "-o", "yaml"],
@@ -186,7 +189,19 @@ def shard(ctx):
                     envspec = ENVS[(k + t + 3 * ctx.shard) % len(ENVS)]
                     cwd = sdir if k % 2 == 0 else alt_cwd
                     try:
-                        code, out, err = run(argv, None, envspec, cwd, to_file=(k % 3 == 2))
+                        if "{OUT}" in argv:
+                            # --output <file>: the bytes left in the file are the output; what the file held before must not matter
+                            opath = os.path.join(sdir, "ofile-" + mode)
+                            before = [None, "", "x" * 60000, "# old\n" * 3, "{\n" * 9000][k % 5]
+                            if before is None:
+                                if os.path.exists(opath):
+                                    os.unlink(opath)
+                            else:
+                                open(opath, "w").write(before)
+                            code, _o, err = run([opath if a == "{OUT}" else a for a in argv], None, envspec, cwd, to_file=False)
+                            out = open(opath, "rb").read() if os.path.exists(opath) else b"<no file>"
+                        else:
+                            code, out, err = run(argv, None, envspec, cwd, to_file=(k % 3 == 2))
                     except subprocess.TimeoutExpired:
                         ctx.inconclusive("timeout")
                         continue
@@ -335,6 +350,17 @@ def replay(case, w):
             return not bad, "%d data files whose unit differs between batch and stand-alone run" % len(bad)
         outs = set()
         for k in range(12):
+            if "{OUT}" in argv:
+                opath = os.path.join(sdir, "ofile")
+                before = [None, "", "x" * 60000, "# old\n" * 3, "{\n" * 9000][k % 5]
+                if before is None:
+                    if os.path.exists(opath):
+                        os.unlink(opath)
+                else:
+                    open(opath, "w").write(before)
+                code, _o, err = run([opath if a == "{OUT}" else a for a in argv], None, ENVS[k % len(ENVS)], sdir, False)
+                outs.add((code, open(opath, "rb").read() if os.path.exists(opath) else b"<no file>"))
+                continue
             code, out, err = run(argv, None, ENVS[k % len(ENVS)], sdir, False)
             outs.add((code, mask(case["mode"], out) if case["mode"] in STRUCTURED else norm_console(out)))
         return len(outs) == 1, "%d distinct outputs in 12 runs" % len(outs)
@@ -347,11 +373,11 @@ def main(tier, seed):
     core.build(need_cli=True)
     res = core.run_shards(shard, seed, tier, "C05")
     mo = res.extra.get("modes_with_output", set())
-    floor = {"cases": (res.cases, 500), "modes_with_nonempty_output": (len([m for m in mo if not m.endswith(":EMPTY")]), 24),
+    floor = {"cases": (res.cases, 500), "modes_with_nonempty_output": (len([m for m in mo if not m.endswith(":EMPTY")]), 27),
              "in_process_repetitions": (res.counts["in_process_repetitions"], 200),
              "earlier_file_units_compared": (res.counts["earlier_file_units_compared"], 150)}
     return core.finish("C05", tier, seed, res, t0,
-                       rule="generated inputs (2 rules files with >=3 rules each, 3 CloudFormation-shaped documents, a test spec) x 24 command/output modes (2 on Terraform-plan-shaped data, 4 of them function rules: parse_epoch on 12 timestamp spellings incl. zone-less and DST-gap ones, case mapping, conversions, join/regex_replace), each "
+                       rule="generated inputs (2 rules files with >=3 rules each, 3 CloudFormation-shaped documents, a test spec) x 27 command/output modes (3 writing to an --output file that held other content before, 2 on Terraform-plan-shaped data, 4 of them function rules: parse_epoch on 12 timestamp spellings incl. zone-less and DST-gap ones, case mapping, conversions, join/regex_replace), each "
                             "run N=5 (quick) / 8 (thorough) times as a fresh process under rotated environments and cwd, plus 5 in-process repetitions of 3 "
                             "payload modes, plus per-data-file units of structured json/yaml/junit/sarif batches vs the same file validated alone (nothing evaluated earlier); distinct = (mode, output size bucket, exit code)",
                        floor=floor,
